@@ -955,6 +955,8 @@ class C17(Prop):
         streak = {}
         fresh_trained = {}          # agent -> True between a positive training and the next change of the window
         assigned_rep = {}           # agent -> True once the operator assigned the anomaly threshold of this watcher
+        has_watcher = {}            # agent -> True once a training was positive (flag_agent reaches a watcher only then)
+        op_flag = {}                # agent -> the OPERATOR flagged this watcher (non-empty reason) and has not reset it since
         for idx, (line, o, ex) in enumerate(zip(case["lines"], obs, extra)):
             t = line.split()
             op = t[0] if t else ""
@@ -1008,8 +1010,15 @@ class C17(Prop):
                     fresh_trained[a] = True
                     streak[a] = 0
                     assigned_rep[a] = False
+                    has_watcher[a] = True
+                    op_flag[a] = False          # a new watcher: nobody has flagged it
             elif op == "preset" or op == "presetfa":
                 streak[int(t[1])] = 0
+                if op == "preset":
+                    op_flag[int(t[1])] = False   # handling the response clears the manual flag
+            elif op == "pflag" and len(t) == 3 and o == "ok":
+                if has_watcher.get(int(t[1])):
+                    op_flag[int(t[1])] = t[2] in ("1", "o", "s0")     # a reason was really given
             elif op == "pset" and len(t) >= 3:
                 if t[2] == "rep":
                     assigned_rep[int(t[1])] = True
@@ -1038,7 +1047,9 @@ class C17(Prop):
                 rep_eff = ex["rep"] if assigned_rep.get(a) else max(ex["rep"], 2)
                 # a remembered threat: reported (or imported) earlier in this history AND still held by the memory now
                 # (not aged out, not pushed out at capacity, not removed from `memory.signatures` by hand)
-                second = (canary_fails(pr, p) or ex["flag_before"] or streak.get(a, 0) >= rep_eff
+                # a manual flag is a second signal when an operator set it in THIS history (and did not reset it since) and
+                # the watcher still carries it — a flag the code raised on its own is not an independent signal
+                second = (canary_fails(pr, p) or (ex["flag_before"] and op_flag.get(a, False)) or streak.get(a, 0) >= rep_eff
                           or ((a, p[6], p[7]) in remembered and (a, p[6], p[7]) in ex["mem_keys"]))
                 out += self._clauses(idx, level, action, s2, v, second, ex["anergic_before"], "pipeline")
                 if fresh_trained.get(a) and level != "none":
